@@ -5,6 +5,8 @@ import (
 	"go/token"
 	"go/types"
 
+	"golang.org/x/tools/go/types/typeutil"
+
 	"utilverif/internal/core"
 )
 
@@ -39,157 +41,281 @@ func runGcsync(c *Ctx) {
 		rw         bool
 	}
 	for _, t := range []target{{"Mutex", "Lock", false}, {"Mutex", "TryLock", false}, {"RWMutex", "Lock", true}, {"RWMutex", "TryLock", true}} {
-		d := c.declByName("R12", "csync", t.recv, t.name)
-		if d == nil {
+		d0 := c.declByName("R12", "csync", t.recv, t.name)
+		if d0 == nil {
 			continue
 		}
-		fname := core.FuncName(d.Obj)
-		lits := escapingLits(c, d)
-		// the variables the rows talk about, found by structure (not by name)
-		wr, st, pre := "?write", "?status", "?pre"
-		if v := paramWhere(d, isBoolType); v != nil {
-			wr = c.Role(v)
+		// the acquisition functions: the API function itself when it holds the status word, otherwise the
+		// same-package functions it dispatches to (return m.tryLockWrite()), each in the mode it grants
+		type acq struct {
+			decl *core.FuncDecl
+			mode int // 0: by the bool parameter, 1: write only, 2: read only
 		}
-		if v := localWhere(d, d.Decl, func(v *types.Var, _ *ast.Ident) bool { return core.IsAtomicType(v.Type()) }); v != nil {
-			st = c.Role(v)
+		hasStatus := func(d *core.FuncDecl) bool {
+			return localWhere(d, d.Decl, func(v *types.Var, _ *ast.Ident) bool { return core.IsAtomicType(v.Type()) }) != nil
+		}
+		var afs []acq
+		if hasStatus(d0) {
+			afs = append(afs, acq{d0, 0})
 		} else {
-			c.MissingAnchor("R12", fname+": the local status word (a sync/atomic value)")
-		}
-		if v := assignedFromCall(d, d.Decl, 0, func(call *ast.CallExpr) bool { _, ok := callSel(call, "Swap"); return ok }); v != nil {
-			pre = c.Role(v)
-		}
-		isGrant := func(ev *core.Event) bool {
-			return assignsField(ev, locked, "true") || assignsField(ev, writing, "true") || incDecField(ev, nread, token.INC)
-		}
-		isUngrant := func(ev *core.Event) bool {
-			return assignsField(ev, locked, "false") || assignsField(ev, writing, "false") || incDecField(ev, nread, token.DEC)
-		}
-		// the function itself
-		c.Walk("R12", &core.Config{Follow: samePkgFollow(d.Pkg.PkgPath)}, core.Entry{Decl: d}, func(p *core.Path) {
-			g := prepare(c, p)
-			granted := false
-			releaseRan := false
-			inc, dec := 0, 0
-			for i, ev := range p.Events {
-				switch {
-				case assignsField(ev, locked, "true"):
-					a.requireGuard("R12", fname+"/grant(locked=true)", g, i, true, fnot(fld(locked)), "the grant m.locked = true")
-				case assignsField(ev, writing, "true"):
-					a.requireGuard("R12", fname+"/grant(writing=true)", g, i, true, availW, "the write grant m.writing = true")
-				case incDecField(ev, nread, token.INC):
-					a.requireGuard("R12", fname+"/grant(nreaders++)", g, i, true, availR, "the read grant m.nreaders++")
-				case incDecField(ev, wwait, token.INC):
-					inc++
-					a.requireGuard("R12", fname+"/register(writeWaiting++)", g, i, true, fand(fld(wr), fnot(availW)), "the registration m.writeWaiting++")
-				case incDecField(ev, wwait, token.DEC) && !inReleaseLit(ev.Frame, lits):
-					dec++
-					a.requireGuard("R12", fname+"/deregister(writeWaiting--)[grant]", g, i, true, fand(fld(wr), availW), "m.writeWaiting-- on the slow-path grant")
-				case incDecField(ev, wwait, token.DEC):
-					dec++
-				}
-				if isGrant(ev) {
-					granted = true
-				}
-				if isUngrant(ev) {
-					granted = false
-				}
-				if ev.Kind == core.KEnter && ev.Inner.Lit != nil {
-					for _, l := range lits {
-						if ev.Inner.Lit == l {
-							releaseRan = true
-						}
-					}
-				}
-				if ev.Kind == core.KReturn && ev.Frame.Parent == nil && len(ev.Results) == 2 {
-					second := unparen(ev.Results[1])
-					success := false
-					if t.name == "Lock" {
-						success = isNilExpr(second, ev.Frame)
-					} else if id, ok := second.(*ast.Ident); ok {
-						success = id.Name == "true"
-					}
-					if success {
-						want := eq("1", st)
-						if t.name == "TryLock" {
-							want = fnot(fld(st))
-						}
-						a.requireGuard("R12", fname+"/return-success", g, i, false, want, "a successful return")
-						a.note("R12", fname+"/return-success/after-grant", ev.Pos, !granted,
-							"every successful return follows a grant write on the same path",
-							"the function reports success on a path on which no grant write (locked/writing = true, nreaders++) happened: the caller believes it holds the lock and its release will un-grant somebody else's hold", p)
-					} else {
-						a.note("R12", fname+"/return-failure/no-grant", ev.Pos, granted,
-							"failure returns follow no grant write",
-							"the function returns failure on a path on which it granted itself the lock and did not undo it", p)
-						if t.name == "Lock" {
-							a.note("R12", fname+"/return-failure/release-called", ev.Pos, !releaseRan,
-								"the cancelled path runs the release closure before returning",
-								"Lock returns an error without having run its release closure: a registered waiter leaves a trace (writeWaiting) behind", p)
-						}
-					}
-				}
-			}
-			if t.rw && t.name == "Lock" && p.End == core.EndReturn {
-				a.note("R12", fname+"/writeWaiting-balance", d.Decl.Pos(), inc != dec,
-					"every returning path performs as many writeWaiting-- as writeWaiting++",
-					sprintf("a returning path performs %d writeWaiting++ and %d writeWaiting--: a writer that gave up or was granted still counts as waiting (readers starve) or is subtracted twice", inc, dec), p)
-			}
-		})
-		// the release closures
-		for li, l := range lits {
-			name := sprintf("%s.release#%d", fname, li+1)
-			c.Walk("R16", &core.Config{Follow: samePkgFollow(d.Pkg.PkgPath)}, core.Entry{Lit: l, Pkg: d.Pkg, Outer: d, Name: name}, func(p *core.Path) {
+			pure := true
+			wrP := paramWhere(d0, isBoolType)
+			c.Walk("R12", &core.Config{}, core.Entry{Decl: d0}, func(p *core.Path) {
 				g := prepare(c, p)
-				swapped, branched := false, false
 				for i, ev := range p.Events {
-					if ev.Kind == core.KCall && ev.Callee != nil && ev.Callee.Pkg() != nil && ev.Callee.Pkg().Path() == "sync/atomic" &&
-						(ev.Callee.Name() == "Swap" || ev.Callee.Name() == "CompareAndSwap") {
-						swapped = true
+					if ev.Kind != core.KReturn || ev.Frame.Parent != nil {
+						continue
 					}
-					if ev.Kind == core.KBranch && swapped {
-						branched = true
+					var hd *core.FuncDecl
+					if len(ev.Results) == 1 {
+						if call, ok := unparen(ev.Results[0]).(*ast.CallExpr); ok {
+							if f, _ := typeutil.Callee(ev.Frame.Info(), call).(*types.Func); f != nil && f.Pkg() == d0.Obj.Pkg() {
+								if x := c.Prog.Decl(f.Origin()); x != nil && hasStatus(x) {
+									hd = x
+								}
+							}
+						}
 					}
-					if ev.Kind == core.KAcquire {
-						a.note("R16", name+"/test-and-set-prologue", ev.Pos, !(swapped && branched),
-							"the closure decides by an atomic Swap/CompareAndSwap before it enters a critical section",
-							"the release closure enters a critical section without first winning an atomic test-and-set: a repeated release changes who holds the lock", p)
+					if hd == nil {
+						pure = false
+						continue
 					}
-					first := fnot(fld(st + ".Swap(true)"))
-					held := for_(eq("1", pre), fand(fnot(eq("0", pre)), fnot(eq("2", pre))))
-					switch {
-					case assignsField(ev, locked, "false"):
-						w := held
-						if t.name == "TryLock" {
-							w = first
+					mode := 0
+					if paramWhere(hd, isBoolType) == nil {
+						grantsW := len(declsWhere(c, "csync", func(dd *core.FuncDecl, n ast.Node) bool {
+							if dd != hd {
+								return false
+							}
+							rhs, ok := assignsFieldNode(dd, n, writing)
+							return ok && rhs != nil && core.ExprString(rhs) == "true"
+						})) > 0
+						grantsR := len(declsWhere(c, "csync", func(dd *core.FuncDecl, n ast.Node) bool {
+							if dd != hd {
+								return false
+							}
+							st, ok := n.(*ast.IncDecStmt)
+							if !ok || st.Tok != token.INC {
+								return false
+							}
+							fv := fieldVar(st.X, &core.Frame{Pkg: dd.Pkg})
+							return fv != nil && core.FieldName(fv) == nread
+						})) > 0
+						switch {
+						case grantsW && !grantsR:
+							mode = 1
+						case grantsR && !grantsW:
+							mode = 2
 						}
-						a.requireGuard("R12", name+"/ungrant(locked=false)", g, i, false, w, "the un-grant m.locked = false")
-					case assignsField(ev, writing, "false"):
-						w := fand(held, fld(wr))
-						if t.name == "TryLock" {
-							w = fand(first, fld(wr))
+						if t.rw && mode != 0 && wrP != nil {
+							want := fld(c.Role(wrP))
+							if mode == 2 {
+								want = fnot(want)
+							}
+							a.requireGuard("R12", core.FuncName(d0.Obj)+"/dispatch-mode", g, i, false, want, "dispatching to "+core.FuncName(hd.Obj))
 						}
-						a.requireGuard("R12", name+"/ungrant(writing=false)", g, i, false, w, "the un-grant m.writing = false")
-					case incDecField(ev, nread, token.DEC):
-						w := fand(held, fnot(fld(wr)))
-						if t.name == "TryLock" {
-							w = fand(first, fnot(fld(wr)))
+					}
+					seen := false
+					for _, x := range afs {
+						if x.decl == hd {
+							seen = true
 						}
-						a.requireGuard("R12", name+"/ungrant(nreaders--)", g, i, false, w, "the un-grant m.nreaders--")
-					case incDecField(ev, wwait, token.DEC):
-						a.requireGuard("R12", name+"/deregister(writeWaiting--)[give-up]", g, i, false, fand(eq("0", pre), fld(wr)), "m.writeWaiting-- in the release closure")
-					case isGrant(ev):
-						a.note("R12", name+"/no-grant-in-release", ev.Pos, true, "", "a release closure performs a grant write", p)
+					}
+					if !seen {
+						afs = append(afs, acq{hd, mode})
 					}
 				}
 			})
+			if !pure || len(afs) == 0 {
+				c.MissingAnchor("R12", core.FuncName(d0.Obj)+": the local status word (a sync/atomic value), in the function or in the functions it dispatches to")
+				continue
+			}
 		}
-		// floors: the instances confirmed by hand
-		a.expect("R12", fname+"/return-success", 1, "successful returns")
-		if !t.rw {
-			a.expect("R12", fname+"/grant(locked=true)", 1, "grant writes of m.locked")
-		} else {
-			a.expect("R12", fname+"/grant(writing=true)", 1, "write grants")
-			a.expect("R12", fname+"/grant(nreaders++)", 1, "read grants")
+		for _, af := range afs {
+			d := af.decl
+			fname := core.FuncName(d.Obj)
+			lits := escapingLits(c, d)
+			// the variables the rows talk about, found by structure (not by name)
+			wr, st, pre := "?write", "?status", "?pre"
+			if v := paramWhere(d, isBoolType); v != nil {
+				wr = c.Role(v)
+			}
+			// the mode conjunct: the bool parameter, or fixed by the function's specialisation
+			unsat := fand(atom("mode"), fnot(atom("mode")))
+			andMode := func(f *formula, write bool) *formula {
+				switch af.mode {
+				case 0:
+					if write {
+						return fand(f, fld(wr))
+					}
+					return fand(f, fnot(fld(wr)))
+				case 1:
+					if write {
+						return f
+					}
+					return unsat
+				default:
+					if write {
+						return unsat
+					}
+					return f
+				}
+			}
+			if v := localWhere(d, d.Decl, func(v *types.Var, _ *ast.Ident) bool { return core.IsAtomicType(v.Type()) }); v != nil {
+				st = c.Role(v)
+			} else {
+				c.MissingAnchor("R12", fname+": the local status word (a sync/atomic value)")
+			}
+			if v := assignedFromCall(d, d.Decl, 0, func(call *ast.CallExpr) bool { _, ok := callSel(call, "Swap"); return ok }); v != nil {
+				pre = c.Role(v)
+			}
+			isGrant := func(ev *core.Event) bool {
+				return assignsField(ev, locked, "true") || assignsField(ev, writing, "true") || incDecField(ev, nread, token.INC)
+			}
+			isUngrant := func(ev *core.Event) bool {
+				return assignsField(ev, locked, "false") || assignsField(ev, writing, "false") || incDecField(ev, nread, token.DEC)
+			}
+			// the function itself
+			c.Walk("R12", &core.Config{Follow: samePkgFollow(d.Pkg.PkgPath)}, core.Entry{Decl: d}, func(p *core.Path) {
+				g := prepare(c, p)
+				granted := false
+				releaseRan := false
+				inc, dec := 0, 0
+				for i, ev := range p.Events {
+					switch {
+					case assignsField(ev, locked, "true"):
+						a.requireGuard("R12", fname+"/grant(locked=true)", g, i, true, fnot(fld(locked)), "the grant m.locked = true")
+					case assignsField(ev, writing, "true"):
+						a.requireGuard("R12", fname+"/grant(writing=true)", g, i, true, availW, "the write grant m.writing = true")
+					case incDecField(ev, nread, token.INC):
+						a.requireGuard("R12", fname+"/grant(nreaders++)", g, i, true, availR, "the read grant m.nreaders++")
+					case incDecField(ev, wwait, token.INC):
+						inc++
+						a.requireGuard("R12", fname+"/register(writeWaiting++)", g, i, true, andMode(fnot(availW), true), "the registration m.writeWaiting++")
+					case incDecField(ev, wwait, token.DEC) && !inReleaseLit(ev.Frame, lits):
+						dec++
+						a.requireGuard("R12", fname+"/deregister(writeWaiting--)[grant]", g, i, true, andMode(availW, true), "m.writeWaiting-- on the slow-path grant")
+					case incDecField(ev, wwait, token.DEC):
+						dec++
+					}
+					if isGrant(ev) {
+						granted = true
+					}
+					if isUngrant(ev) {
+						granted = false
+					}
+					if ev.Kind == core.KEnter && ev.Inner.Lit != nil {
+						for _, l := range lits {
+							if ev.Inner.Lit == l {
+								releaseRan = true
+							}
+						}
+					}
+					if ev.Kind == core.KReturn && ev.Frame.Parent == nil && len(ev.Results) == 2 {
+						second := unparen(ev.Results[1])
+						success := false
+						if t.name == "Lock" {
+							success = isNilExpr(second, ev.Frame)
+						} else if id, ok := second.(*ast.Ident); ok {
+							success = id.Name == "true"
+						}
+						if success {
+							want := eq("1", st)
+							if t.name == "TryLock" {
+								want = fnot(fld(st))
+							}
+							a.requireGuard("R12", fname+"/return-success", g, i, false, want, "a successful return")
+							a.note("R12", fname+"/return-success/after-grant", ev.Pos, !granted,
+								"every successful return follows a grant write on the same path",
+								"the function reports success on a path on which no grant write (locked/writing = true, nreaders++) happened: the caller believes it holds the lock and its release will un-grant somebody else's hold", p)
+						} else {
+							a.note("R12", fname+"/return-failure/no-grant", ev.Pos, granted,
+								"failure returns follow no grant write",
+								"the function returns failure on a path on which it granted itself the lock and did not undo it", p)
+							if t.name == "Lock" {
+								a.note("R12", fname+"/return-failure/release-called", ev.Pos, !releaseRan,
+									"the cancelled path runs the release closure before returning",
+									"Lock returns an error without having run its release closure: a registered waiter leaves a trace (writeWaiting) behind", p)
+							}
+						}
+					}
+				}
+				if t.rw && t.name == "Lock" && p.End == core.EndReturn {
+					a.note("R12", fname+"/writeWaiting-balance", d.Decl.Pos(), inc != dec,
+						"every returning path performs as many writeWaiting-- as writeWaiting++",
+						sprintf("a returning path performs %d writeWaiting++ and %d writeWaiting--: a writer that gave up or was granted still counts as waiting (readers starve) or is subtracted twice", inc, dec), p)
+				}
+			})
+			// the release closures
+			for li, l := range lits {
+				name := sprintf("%s.release#%d", fname, li+1)
+				c.Walk("R16", &core.Config{Follow: samePkgFollow(d.Pkg.PkgPath)}, core.Entry{Lit: l, Pkg: d.Pkg, Outer: d, Name: name}, func(p *core.Path) {
+					g := prepare(c, p)
+					swapped, branched := false, false
+					for i, ev := range p.Events {
+						if ev.Kind == core.KCall && ev.Callee != nil && ev.Callee.Pkg() != nil && ev.Callee.Pkg().Path() == "sync/atomic" &&
+							(ev.Callee.Name() == "Swap" || ev.Callee.Name() == "CompareAndSwap") {
+							swapped = true
+						}
+						if ev.Kind == core.KBranch && swapped {
+							branched = true
+						}
+						if ev.Kind == core.KAcquire {
+							a.note("R16", name+"/test-and-set-prologue", ev.Pos, !(swapped && branched),
+								"the closure decides by an atomic Swap/CompareAndSwap before it enters a critical section",
+								"the release closure enters a critical section without first winning an atomic test-and-set: a repeated release changes who holds the lock", p)
+						}
+						first := fnot(fld(st + ".Swap(true)"))
+						held := for_(eq("1", pre), fand(fnot(eq("0", pre)), fnot(eq("2", pre))))
+						switch {
+						case assignsField(ev, locked, "false"):
+							w := held
+							if t.name == "TryLock" {
+								w = first
+							}
+							a.requireGuard("R12", name+"/ungrant(locked=false)", g, i, false, w, "the un-grant m.locked = false")
+						case assignsField(ev, writing, "false"):
+							w := andMode(held, true)
+							if t.name == "TryLock" {
+								w = andMode(first, true)
+							}
+							a.requireGuard("R12", name+"/ungrant(writing=false)", g, i, false, w, "the un-grant m.writing = false")
+						case incDecField(ev, nread, token.DEC):
+							w := andMode(held, false)
+							if t.name == "TryLock" {
+								w = andMode(first, false)
+							}
+							a.requireGuard("R12", name+"/ungrant(nreaders--)", g, i, false, w, "the un-grant m.nreaders--")
+						case incDecField(ev, wwait, token.DEC):
+							a.requireGuard("R12", name+"/deregister(writeWaiting--)[give-up]", g, i, false, andMode(eq("0", pre), true), "m.writeWaiting-- in the release closure")
+						case isGrant(ev):
+							a.note("R12", name+"/no-grant-in-release", ev.Pos, true, "", "a release closure performs a grant write", p)
+						}
+					}
+				})
+			}
+			// floors: the instances confirmed by hand
+			a.expect("R12", fname+"/return-success", 1, "successful returns")
+			if !t.rw {
+				a.expect("R12", fname+"/grant(locked=true)", 1, "grant writes of m.locked")
+			} else {
+				if af.mode != 2 {
+					a.expect("R12", fname+"/grant(writing=true)", 1, "write grants")
+				}
+				if af.mode != 1 {
+					a.expect("R12", fname+"/grant(nreaders++)", 1, "read grants")
+				}
+			}
+		}
+		if t.rw {
+			// between them the acquisition functions cover both modes
+			w, r := false, false
+			for _, af := range afs {
+				w = w || af.mode != 2
+				r = r || af.mode != 1
+			}
+			if !w || !r {
+				c.MissingAnchor("R12", core.FuncName(d0.Obj)+": an acquisition function for each mode (write and read)")
+			}
 		}
 	}
 	// Locker wrappers: Unlock takes the stored release function exactly once
